@@ -56,6 +56,7 @@ def isolated(env=None, cwd=None):
                     os.environ[k] = str(v)
         if cwd:
             os.chdir(cwd)
+        _tzset()
         # no run ever reads the real clock: a frozen simulated clock is the default,
         # runs that study time install their own SimClock on top
         from fontTools.misc import timeTools
@@ -73,6 +74,7 @@ def isolated(env=None, cwd=None):
                 setattr(m, a, v)
         os.environ.clear()
         os.environ.update(saved_env)
+        _tzset()
         try:
             os.chdir(saved_cwd)
         except OSError:
@@ -86,6 +88,14 @@ def isolated(env=None, cwd=None):
         warnings.filters[:] = saved_filters
         logging.disable(saved_disable)
         _clear_caches()
+
+
+def _tzset():
+    """Make a changed TZ environment variable effective for this process (and undo it afterwards)."""
+    import time
+
+    if hasattr(time, "tzset"):
+        time.tzset()
 
 
 def _clear_caches():
